@@ -5,6 +5,7 @@
 #include <spec/x690.h>
 #define VF_CB_CAP 16
 #include <vf_cb.h>
+#include <vf_alloc.h>
 #include "ber_tlv_tag.c"
 #include "ber_tlv_length.c"
 #include "ber_decoder.c"
@@ -38,6 +39,7 @@ void h_ber_decode_primitive(void) {
 	__CPROVER_assert(rv.code == RC_OK || rv.code == RC_WMORE || rv.code == RC_FAIL, "C04: return code is one of RC_OK / RC_WMORE / RC_FAIL");
 	__CPROVER_assert(rv.consumed <= size, "C04: consumed <= size");
 	if(rv.code == RC_WMORE) __CPROVER_assert(rv.consumed == 0, "C05: a starved context-free decode consumes nothing");
+	__CPROVER_assert(vf_alloc_peak_request <= size + 64, "C15: the length is compared with the available bytes before anything is allocated for the contents");
 	if(sptr) {
 		ASN__PRIMITIVE_TYPE_t *st = (ASN__PRIMITIVE_TYPE_t *)sptr;
 		if(rv.code == RC_OK) {
